@@ -101,3 +101,47 @@ def split_impl(s):
         kv = dict(x.split("=", 1) for x in tail.split() if "=" in x)
         return head, kv
     return s, {}
+
+
+def whole_source_runs(ck, lines, impl, limit=None, label="whole-file"):
+    """The same enc / dec / ver lines on the TRANSLATED SOURCE ONLY (coq/SrcRun5.v: runcrypt::execute_* with the translated protocol,
+    worker threads, cipher modes, header, HMAC and hashes under the thread semantics MiniCConc, a different seed of the scheduler
+    function for every line).  lines: ["<id> enc ..." | "<id> dec T key file" | "<id> ver T key file"]; impl: id -> implementation
+    output.  A subset is run (the interpreter is ~10^3 x slower): short lines first, plus evenly spaced longer ones.
+    Returns the list of (id, line, implementation head, translated-source result) that differ."""
+    if limit is None:
+        limit = 320 if ck.tier == "thorough" else 56
+    cand = [l for l in lines if l.split(" ", 2)[1] in ("enc", "dec", "ver") and len(l) < 6000]
+    cand.sort(key=len)
+    nshort = limit * 3 // 4
+    pick = cand[:nshort]
+    rest = cand[nshort:]
+    if rest:
+        stepk = max(1, len(rest) // max(1, limit - nshort))
+        pick += rest[::stepk][:limit - nshort]
+    r = ck.rng
+    sl = []
+    for l in pick:
+        cid, op, tail = l.split(" ", 2)
+        sl.append("%s @S=%d %s %s" % (cid, r.randrange(1 << 30) if r.random() < 0.8 else 0, "verw" if op == "ver" else op, tail))
+    out = wv.run_lines([ck.model_driver(), "src"], sl, shards=wv.NCPU, env=small_env(ck), timeout=1200) if sl else {}
+    diffs = []
+    for l in pick:
+        cid = l.split(" ", 1)[0]
+        if cid not in out:
+            continue
+        head, _ = split_impl(impl.get(cid, "(no output)"))
+        if head != out[cid]:
+            diffs.append((cid, l, head, out[cid]))
+    ck.cov["whole_file_runs_on_translated_source"] = ck.cov.get("whole_file_runs_on_translated_source", 0) + len(out)
+    ck.cov["disagreements_source_vs_impl"] = ck.cov.get("disagreements_source_vs_impl", 0) + len(diffs)
+    return diffs
+
+
+def report_whole_source(ck, diffs, label=""):
+    """a difference between the implementation and the translated whole-file run is a broken correspondence (no failing input of the
+    property by itself): reported when nothing else was found"""
+    if diffs and not ck.violations:
+        cid, l, head, s = diffs[0]
+        ck.violation("correspondence translated-source(whole-file run under MiniCConc)/implementation no longer checks (%d cases differ) but no input violating the property was found" % len(diffs),
+                     {"class": None, "broken": "correspondence translated whole-file run vs implementation " + label, "case": l[:3000], "implementation": head[:2000], "translated_source": s[:2000]}, found_input=False)
